@@ -3,6 +3,7 @@ package main
 // Calls: builtins, intrinsics, contracts (modular), inlining, interface invokes.
 
 import (
+	"os"
 	"fmt"
 	"go/token"
 	"go/types"
@@ -457,6 +458,34 @@ func (x *Exec) invoke(st *State, c *ssa.Call, com *ssa.CallCommon, recv Val, arg
 	}
 	spec := e.ifaceSpec(com.Value.Type(), com.Method.Name())
 	sig := com.Signature()
+	if os.Getenv("GOVC_DEBUG") != "" {
+		fmt.Fprintf(os.Stderr, "invoke %s.%s spec=%v impls=%d pure=%d const=%v\n", com.Value.Type(), com.Method.Name(), spec != nil, func() int { if spec == nil { return -1 }; return len(spec.Impls) }(), x.pure, iv.Tag.IsConst())
+	}
+	if spec != nil && len(spec.Impls) > 0 && x.pure == 0 && !iv.Tag.IsConst() {
+		// known implementations are dispatched by case analysis on the dynamic type
+		var rest []*Term
+		for _, ie := range spec.Impls {
+			env := &Env{x: x, st: st, heap: st.heap, old: st.heap, vars: map[string]TV{}, ovars: map[string]TV{}}
+			if tp := e.tpkgs[spec.Pkg]; tp != nil {
+				env.pkg = tp.Types
+			}
+			t := env.typeExpr(ie)
+			cond := Eq(iv.Tag, e.ar.IConst(int64(e.typeTag(t))))
+			x.paths++
+			if x.paths > x.e.maxPaths {
+				x.fail("path limit %d exceeded", x.e.maxPaths)
+			}
+			st2 := x.cloneState(st)
+			st2.assume(cond)
+			st2.br = append(st2.br, cond)
+			x.invoke(st2, c, com, VIface{Tag: e.ar.IConst(int64(e.typeTag(t))), Ref: iv.Ref}, args, k)
+			x.dropState(st2)
+			rest = append(rest, Not(cond))
+		}
+		nc := And(rest...)
+		st.assume(nc)
+		st.br = append(st.br, nc)
+	}
 	if spec == nil {
 		if x.pure == 0 {
 			e.note("interface method %s.%s has no contract: results havocked", com.Value.Type(), com.Method.Name())
@@ -602,6 +631,27 @@ func (x *Exec) applySpecNamed(st *State, c *ssa.Call, fn *ssa.Function, spec *Fu
 		}
 		x.oblige(st, fmt.Sprintf("%s/decreases#%d", x.qname, callOrd), "decreases", g, "recursive call decreases "+spec.Decreases.Text, x.posOf(c), nil)
 	}
+	// vacuity guard: the callee's (assumed) postcondition must not make a reachable state unreachable
+	coverName := ""
+	if x.primary && x.pure == 0 && !st.dead && x.top != nil && !x.initMode {
+		lim := 1
+		if spec.Kind != "func" || spec.Trusted {
+			lim = 2
+		}
+		for _, cl := range spec.Ensures {
+			if cl.trusted() {
+				lim = 2
+			}
+		}
+		if x.callCovers == nil {
+			x.callCovers = map[string]int{}
+		}
+		if x.callCovers[calleeName] < lim {
+			x.callCovers[calleeName]++
+			coverName = fmt.Sprintf("%s/cover-call@%s#%d.%d", x.qname, calleeName, callOrd, x.callCovers[calleeName])
+			x.addCover(st, coverName+"/before", "the call to "+calleeName+" is reachable")
+		}
+	}
 	// frame: havoc what the callee may assign
 	x.modelHandles = nil
 	// all targets are evaluated in the pre-state before anything is havocked
@@ -626,7 +676,7 @@ func (x *Exec) applySpecNamed(st *State, c *ssa.Call, fn *ssa.Function, spec *Fu
 	}
 	for i, n := range rnames {
 		rt := sig.Results().At(i).Type()
-		v := x.freshVal(st, rt, "r_"+n)
+		v := x.freshResult(st, rt, "r_"+n)
 		x.markAllocated(st, rt, v)
 		rs = append(rs, v)
 		post[n] = TV{V: v, T: rt}
@@ -659,7 +709,18 @@ func (x *Exec) applySpecNamed(st *State, c *ssa.Call, fn *ssa.Function, spec *Fu
 		}
 	}
 	x.modelHandles = nil
+	if coverName != "" {
+		x.addCover(st, coverName+"/after", "the contract of "+calleeName+" leaves the call site's state satisfiable")
+	}
 	k(st, x.resultOf(sig, rs))
+}
+
+func (x *Exec) addCover(st *State, name, text string) {
+	cov := &Obligation{Name: name, Func: x.qname, Kind: "cover", Text: text, Mode: x.e.ar.Mode,
+		Goal: False, Assume: st.pc[:len(st.pc):len(st.pc)], Cover: true, Path: strings.Join(st.trace, ">")}
+	x.e.mu.Lock()
+	x.e.obligations = append(x.e.obligations, cov)
+	x.e.mu.Unlock()
 }
 
 // markAllocated: identities returned by a callee are allocated afterwards
